@@ -905,7 +905,7 @@ func TestScenarios(t *testing.T) {
 		return
 	}
 	r.Rule(ruleText)
-	r.Rapid(t, "TestScenarios", r.Pick(700, 9000), func(rt *rapid.T) {
+	r.Rapid(t, "TestScenarios", r.Pick(1200, 12000), func(rt *rapid.T) {
 		sc := genScenario(rt, 4)
 		label, fp := fingerprint(sc)
 		r.Case("scenario/"+label, fp, func() interface{} { return sc })
